@@ -312,18 +312,41 @@ def check_row(r, cat, kind, row, rrow, rig, enc, rng, focus, design_ok, solicit=
     try:
         if kind.direction == "in":
             req = None
+            inline = False
             if kind.solicited_by or solicit:
                 sk = cat.BY_NAME[kind.solicited_by or solicit]
                 req = sk.make_entity(rng)
-                rig.send(req)
-                rig.reset_probes_only = True
-                del rig.bottom.down[:], rig.enc_entered[:]
                 node = kind.make_node(rng, request=req)
+                # every third solicited reply arrives while the request is still being written (loopback / very fast peer, or the
+                # writing thread preempted right after the write): the routing is that of request-then-reply
+                inline = rng.random() < 0.34
+                if inline:
+                    orig_send = rig.bottom.send
+                    fired = []
+
+                    def send_and_reply(data, orig_send=orig_send):
+                        orig_send(data)
+                        if not fired and getattr(data, "tag", None) == "iq" and data["id"] == node["id"]:
+                            fired.append(1)
+                            rig.bottom.send = orig_send
+                            rig.bottom.toUpper(node)
+                    rig.bottom.send = send_and_reply
+                    try:
+                        rig.send(req)
+                    finally:
+                        rig.bottom.send = orig_send
+                    inline = bool(fired)
+                else:
+                    rig.send(req)
+                rig.reset_probes_only = True
+                rig.bottom.down[:] = [d for d in rig.bottom.down if not (d.tag == "iq" and d["id"] == req.getId() and d["type"] not in ("result", "error"))] if inline else []
+                del rig.enc_entered[:]
             else:
                 node = kind.make_node(rng)
             want_react = kind.reaction(node) if kind.reaction is not None else []
             copy_before = node.__str__()
-            rig.inject(node)
+            if not inline:
+                rig.inject(node)
             ups, downs = list(rig.top.up), list(rig.bottom.down)
             if enc:
                 # key management traffic of the encryption layers (key upload after login, key fetch) is not a reaction to the stanza
